@@ -177,7 +177,7 @@ def _gen_comp(rng, malformed=False):
         t = c["time"]
         my_ins, my_outs = c["ins"], c["outs"]
 
-        def deps(excl_out=None, p=0.35):
+        def deps(excl_out=None, p=0.22):
             ds = []
             for i in my_ins:
                 if rng.random() < p:
@@ -211,7 +211,7 @@ def _gen_comp(rng, malformed=False):
             return rs
 
         for i in my_ins:
-            ins[i]["pull"] = rng.random() < 0.5
+            ins[i]["pull"] = rng.random() < 0.4
         for i in my_ins:
             sp = ins[i]
             r = rng.random()
@@ -249,7 +249,7 @@ def _gen_comp(rng, malformed=False):
             if sp["own"] is None and sp["rules"] is None and sp["prov_info"] is not None and rng.random() < 0.05:
                 sp["own"] = t
             if not (malformed and rng.random() < 0.15):
-                sp["prov_data"] = [deps(excl_out=None, p=0.4), 10 + o]
+                sp["prov_data"] = [deps(excl_out=None, p=rng.choice([0.0, 0.15, 0.4])), 10 + o]
     case = {"kind": "comp", "start": start, "auto_start": rng.random() < 0.3, "ins": ins, "outs": outs, "comps": comps}
     rng.shuffle(case["comps"])
     return case
